@@ -420,6 +420,13 @@ func (s *Spec) realiseMap() any {
 			}
 			return out
 		}
+	case "anykey":
+		// what yaml.v2 and other generic decoders hand out: string keys in a map[any]any
+		out := make(map[any]any, s.Cap)
+		for i, k := range s.Keys {
+			out[k] = s.E[i].Realise()
+		}
+		return out
 	case "mapslice":
 		out := make(yaml.MapSlice, 0, len(s.E))
 		for i, k := range s.Keys {
